@@ -343,7 +343,7 @@ Proof.
             ltac:(apply nth_In; rewrite lens_of_length; exact Hal)). lia. }
         assert (Hgen : forall (ls : list N) a s, Forall (fun l => 0 < l) ls -> 0 < s ->
                        Forall (fun l => 0 < l) (list_upd ls a s)).
-        { clear. intros ls a s Hp; revert a; induction Hp as [|l ls Hl _ IH]; intros [|a] Hs;
+        { clear. intros ls a s Hp; revert a; induction Hp as [|l ls Hl Hp IH]; intros [|a] Hs;
             cbn [list_upd]; constructor; auto. }
         apply Hgen; assumption.
     + intros idx Hl. rewrite list_upd_length in Hl. rewrite lens_list_upd.
@@ -351,7 +351,7 @@ Proof.
       pose proof (chain_find_spec lens (nth along idx 0) 0) as Hf.
       assert (HD : length (list_upd (lens_of sh0) along (sum lens)) = length sh0)
         by (rewrite list_upd_length; apply lens_of_length).
-      rewrite (in_range_nth idx _ ltac:(lia)). rewrite HD.
+      rewrite (in_range_nth idx (list_upd (lens_of sh0) along (sum lens))) by lia. rewrite HD.
       destruct (chain_find lens (nth along idx 0) 0) as [[k i']|].
       * destruct Hf as [Hk [Hi' Hsum]]. rewrite Nat.sub_0_r in *.
         rewrite picknat_spec.
@@ -361,7 +361,8 @@ Proof.
         pose proof (Forall_nth_error _ _ _ _ Hsim Ek) as Hsk. cbn beta in Hsk.
         destruct (similar_from_spec _ _ _ _ Hsk) as [SL [_ SK]].
         rewrite Hgk by (rewrite list_upd_length; lia).
-        rewrite (in_range_nth _ _ ltac:(rewrite list_upd_length, lens_of_length; lia)).
+        rewrite (in_range_nth (list_upd idx along i') (lens_of (c_shape ck)))
+          by (rewrite list_upd_length, lens_of_length; lia).
         rewrite lens_of_length, SL.
         pose proof (sum_firstn_lt lens k ltac:(lia)) as Hle.
         rewrite (Hnth k ck Ek) in Hi', Hle.
@@ -374,4 +375,316 @@ Proof.
         specialize (Hall' along Hal). rewrite list_upd_nth_same in Hall' by (rewrite lens_of_length; lia). lia.
   - (* wrap *)
     intros Hw Hu. destruct (IHc Hw Hu) as [Hv Hg]. cbn [c_shape c_get]. split; assumption.
+Qed.
+
+(* ================= constructors establish the invariants ================= *)
+
+Section ViewInd.
+  Variable P : view -> Prop.
+  Hypothesis HT : forall id sh, P (VTensor id sh).
+  Hypothesis HM : forall id r k n0 n1, P (VMatrix id r k n0 n1).
+  Hypothesis HRange : forall v p, P v -> P (VRange v p).
+  Hypothesis HMask : forall v p, P v -> P (VMask v p).
+  Hypothesis HIndex : forall v ps, P v -> P (VIndex v ps).
+  Hypothesis HExpand : forall v es, P v -> P (VExpand v es).
+  Hypothesis HRename : forall v ns, P v -> P (VRename v ns).
+  Hypothesis HReverse : forall v ns, P v -> P (VReverse v ns).
+  Hypothesis HAccess : forall v ns, P v -> P (VAccess v ns).
+  Hypothesis HTranspose : forall v ns, P v -> P (VTranspose v ns).
+  Hypothesis HStack : forall vs pos n, Forall P vs -> P (VStack vs pos n).
+  Hypothesis HChain : forall vs n, Forall P vs -> P (VChain vs n).
+  Hypothesis HWrap : forall v, P v -> P (VWrap v).
+
+  Fixpoint view_ind' (v : view) : P v :=
+    match v with
+    | VTensor id sh => HT id sh
+    | VMatrix id r k n0 n1 => HM id r k n0 n1
+    | VRange v p => HRange v p (view_ind' v)
+    | VMask v p => HMask v p (view_ind' v)
+    | VIndex v ps => HIndex v ps (view_ind' v)
+    | VExpand v es => HExpand v es (view_ind' v)
+    | VRename v ns => HRename v ns (view_ind' v)
+    | VReverse v ns => HReverse v ns (view_ind' v)
+    | VAccess v ns => HAccess v ns (view_ind' v)
+    | VTranspose v ns => HTranspose v ns (view_ind' v)
+    | VStack vs pos n =>
+        HStack vs pos n
+          ((fix go (l : list view) : Forall P l :=
+              match l with
+              | [] => Forall_nil P
+              | x :: r => Forall_cons x (view_ind' x) (go r)
+              end) vs)
+    | VChain vs n =>
+        HChain vs n
+          ((fix go (l : list view) : Forall P l :=
+              match l with
+              | [] => Forall_nil P
+              | x :: r => Forall_cons x (view_ind' x) (go r)
+              end) vs)
+    | VWrap v => HWrap v (view_ind' v)
+    end.
+End ViewInd.
+
+(* sources are constructed first, in order *)
+Fixpoint ctor_all (vs : list view) : outcome (list cview) :=
+  match vs with
+  | [] => Ok []
+  | v0 :: r => obind (v_ctor v0) (fun c0 => omap (cons c0) (ctor_all r))
+  end.
+
+Lemma v_ctor_stack vs pos n : v_ctor (VStack vs pos n) = obind (ctor_all vs) (fun cs => stack_ctor cs pos n).
+Proof.
+  reflexivity.
+Qed.
+Lemma v_ctor_chain vs n : v_ctor (VChain vs n) = obind (ctor_all vs) (fun cs => chain_ctor cs n).
+Proof.
+  reflexivity.
+Qed.
+
+Lemma ctor_all_wf vs : Forall (fun v => forall c, v_ctor v = Ok c -> cwf c) vs ->
+  forall cs, ctor_all vs = Ok cs -> Forall cwf cs.
+Proof.
+  induction 1 as [|v r Hv _ IH]; intros cs H; cbn [ctor_all] in H.
+  - injection H as <-. constructor.
+  - destruct (v_ctor v) as [c0| |] eqn:E; cbn [obind] in H; try discriminate.
+    destruct (ctor_all r) as [cr| |]; cbn [omap] in H; try discriminate. injection H as <-.
+    constructor; [apply Hv; reflexivity|apply IH; reflexivity].
+Qed.
+
+(* ---- range / mask ---- *)
+Lemma r_clip_ok r l : let r' := r_clip r l in
+  r_start r' = r_start r /\ (0 < r_len r' -> r_start r' + r_len r' <= l) /\ r_len r' <= l.
+Proof. unfold r_clip, sat_add. cbn [r_start r_len]. lia. Qed.
+
+Lemma clip_all_length (sh : shape) rs : length rs = length sh -> length (clip_all sh rs) = length sh.
+Proof. intros H. unfold clip_all. apply zipwith_length. lia. Qed.
+
+Lemma clip_all_range_ok (sh : shape) : forall rs, length rs = length sh ->
+  Forall (fun l => 0 < l) (map r_len (clip_all sh rs)) -> Forall2 range_ok sh (clip_all sh rs).
+Proof.
+  unfold clip_all. induction sh as [|d sh IH]; intros [|r rs] Hl Hp; cbn [length] in Hl; try lia;
+    cbn [zipwith map] in *; [constructor|].
+  inversion Hp as [|? ? H1 H2]; subst. constructor; [|apply IH; [lia|exact H2]].
+  clear - H1. unfold range_ok, r_clip, sat_add in *. cbn [r_start r_len] in *. lia.
+Qed.
+
+Lemma clip_all_mask_ok (sh : shape) : forall ms, length ms = length sh ->
+  Forall (fun l => 0 < l) (zipwith (fun d m => snd d - r_len m) sh (clip_all sh ms)) ->
+  Forall2 mask_ok sh (clip_all sh ms).
+Proof.
+  unfold clip_all. induction sh as [|d sh IH]; intros [|r rs] Hl Hp; cbn [length] in Hl; try lia;
+    cbn [zipwith map] in *; [constructor|].
+  inversion Hp as [|? ? H1 H2]; subst. constructor; [|apply IH; [lia|exact H2]].
+  clear - H1. unfold mask_ok, r_clip, sat_add in *. cbn [r_start r_len] in *. lia.
+Qed.
+
+Lemma range_clip_from_wf c rs c' : length rs = length (c_shape c) ->
+  range_clip_from c rs = Ok c' -> exists rs', c' = CRange c rs' /\ Forall2 range_ok (c_shape c) rs'.
+Proof.
+  intros Hl. unfold range_clip_from.
+  set (rs' := clip_all (c_shape c) (range_defaults (c_shape c) rs)).
+  destruct (valid_shape_b _) eqn:E; [|discriminate]. intros [= <-]. exists rs'. split; [reflexivity|].
+  assert (Hl' : length (range_defaults (c_shape c) rs) = length (c_shape c))
+    by (unfold range_defaults; apply zipwith_length; lia).
+  apply clip_all_range_ok; [exact Hl'|]. apply valid_shape_b_spec in E. destruct E as [_ E].
+  rewrite lens_range_shape in E by (apply clip_all_length; exact Hl'). exact E.
+Qed.
+
+Lemma mask_clip_from_wf c ms c' : length ms = length (c_shape c) ->
+  mask_clip_from c ms = Ok c' -> exists ms', c' = CMask c ms' /\ Forall2 mask_ok (c_shape c) ms'.
+Proof.
+  intros Hl. unfold mask_clip_from.
+  set (ms' := clip_all (c_shape c) (mask_defaults ms)).
+  destruct (valid_shape_b _) eqn:E; [|discriminate]. intros [= <-]. exists ms'. split; [reflexivity|].
+  assert (Hl' : length (mask_defaults ms) = length (c_shape c))
+    by (unfold mask_defaults; rewrite map_length; exact Hl).
+  apply clip_all_mask_ok; [exact Hl'|]. apply valid_shape_b_spec in E. destruct E as [_ E].
+  rewrite lens_mask_shape in E by (apply clip_all_length; exact Hl'). exact E.
+Qed.
+
+Lemma place_named_length sh : forall named acc all,
+  place_named sh named acc = Some all -> length all = length acc.
+Proof.
+  induction named as [|[n r] rest IH]; intros acc all H; cbn [place_named] in H.
+  - injection H as <-. reflexivity.
+  - destruct (position_of sh n); [|discriminate]. apply IH in H. rewrite list_upd_length in H. exact H.
+Qed.
+
+Lemma from_named_length sh named all : from_named_to_all sh named = Ok all -> length all = length sh.
+Proof.
+  unfold from_named_to_all. destruct (has_duplicates _); [discriminate|].
+  destruct (place_named _ _ _) as [a|] eqn:E; [|discriminate]. intros [= <-].
+  apply place_named_length in E. rewrite repeat_length in E. exact E.
+Qed.
+
+Lemma map_err_Ok {A} f (o : outcome A) a : map_err f o = Ok a -> o = Ok a.
+Proof. destruct o; cbn; congruence. Qed.
+
+(* whatever the constructor form, an Ok result is clip_from applied to one range per dimension *)
+Lemma ranged_ctor_Ok clip_from c p c' : ranged_ctor clip_from c p = Ok c' ->
+  exists all, length all = length (c_shape c) /\ clip_from c all = Ok c'.
+Proof.
+  unfold ranged_ctor. destruct p as [[|] named|[|] rs].
+  - destruct (from_named_to_all _ _) as [all| |] eqn:E; cbn [map_err obind]; try discriminate.
+    destruct (range_exceeds_bounds _ _); [discriminate|]. intros H. apply map_err_Ok in H.
+    exists all. split; [eapply from_named_length; exact E|exact H].
+  - destruct (from_named_to_all _ _) as [all| |] eqn:E; cbn [obind]; try discriminate.
+    intros H. apply map_err_Ok in H. exists all. split; [eapply from_named_length; exact E|exact H].
+  - destruct (Nat.eqb_spec (length rs) (length (c_shape c))) as [E|E]; cbn [negb]; [|discriminate].
+    destruct (range_exceeds_bounds _ _); [discriminate|]. intros H. apply map_err_Ok in H.
+    exists rs. split; assumption.
+  - destruct (Nat.eqb_spec (length rs) (length (c_shape c))) as [E|E]; cbn [negb]; [|discriminate].
+    intros H. exists rs. split; assumption.
+Qed.
+
+(* ---- index selection ---- *)
+Lemma find_sel_spec (sh : shape) n index : forall i k, find_sel sh n index i = Some k ->
+  (i <= k < i + length sh)%nat /\ index < snd (nth (k - i) sh (0%nat, 0)).
+Proof.
+  induction sh as [|d sh IH]; intros i k H; cbn [find_sel] in H; [discriminate|].
+  destruct (Nat.eqb (fst d) n && (index <? snd d)) eqn:E.
+  - injection H as <-. apply andb_prop in E as [_ E]. apply N.ltb_lt in E.
+    rewrite Nat.sub_diag. cbn [nth length]. split; [lia|exact E].
+  - apply IH in H. destruct H as [A B]. cbn [length]. split; [lia|].
+    replace (k - i)%nat with (S (k - S i)) by lia. exact B.
+Qed.
+
+Lemma Forall2_list_upd {A B} (R : A -> B -> Prop) l1 : forall l2 k x d,
+  Forall2 R l1 l2 -> (k < length l1)%nat -> R (nth k l1 d) x -> Forall2 R l1 (list_upd l2 k x).
+Proof.
+  induction l1 as [|a l1 IH]; intros l2 k x d HF Hk Hx; inversion HF; subst; cbn [length] in Hk; [lia|].
+  destruct k as [|k]; cbn [list_upd nth] in *; constructor; auto. eapply IH; eauto. lia.
+Qed.
+
+Lemma place_provided_ok (sh : shape) : forall ps acc pr,
+  place_provided sh ps acc = Some pr -> Forall2 provided_ok sh acc -> Forall2 provided_ok sh pr.
+Proof.
+  induction ps as [|[n index] rest IH]; intros acc pr H HF; cbn [place_provided] in H.
+  - injection H as <-. exact HF.
+  - destruct (find_sel sh n index 0) as [i|] eqn:E; [|discriminate].
+    apply find_sel_spec in E. destruct E as [A B]. rewrite Nat.sub_0_r in B.
+    eapply IH; [exact H|]. eapply Forall2_list_upd with (d := (0%nat, 0)); [exact HF|lia|exact B].
+Qed.
+
+Lemma Forall2_repeat_None (sh : shape) : Forall2 provided_ok sh (repeat None (length sh)).
+Proof. induction sh; cbn; constructor; [exact I|assumption]. Qed.
+
+(* ---- expansion ---- *)
+Lemma contains_false (sh : shape) n : contains sh n = false -> ~ In n (names_of sh).
+Proof.
+  unfold contains. intros H Hin. apply in_map_iff in Hin. destruct Hin as [d [<- Hd]].
+  assert (existsb (fun d0 => Nat.eqb (fst d0) (fst d)) sh = true)
+    by (apply existsb_exists; exists d; split; [exact Hd|apply Nat.eqb_refl]).
+  congruence.
+Qed.
+
+Lemma existsb_false_Forall {A} (f : A -> bool) l : existsb f l = false -> Forall (fun x => f x = false) l.
+Proof.
+  induction l as [|x l IH]; cbn [existsb]; [constructor|]. intros H. apply orb_false_elim in H as [A0 B].
+  constructor; auto.
+Qed.
+
+(* ---- stack / chain ---- *)
+Lemma forallb_Forall' {A} (f : A -> bool) l : forallb f l = true -> Forall (fun x => f x = true) l.
+Proof. intros H. rewrite forallb_forall in H. apply Forall_forall. exact H. Qed.
+
+Lemma similar_from_refl (s : shape) : forall d along, similar_from d along s s = true.
+Proof.
+  induction s as [|a s IH]; intros d along; cbn [similar_from]; [reflexivity|].
+  rewrite IH, Nat.eqb_refl, N.eqb_refl. destruct (Nat.eqb d along); reflexivity.
+Qed.
+
+Theorem ctor_wf v : forall c, v_ctor v = Ok c -> cwf c.
+Proof.
+  induction v using view_ind'; intros c0 Hc.
+  - (* tensor *)
+    cbn [v_ctor] in Hc. destruct (valid_shape_b sh) eqn:E; [|discriminate]. injection Hc as <-.
+    cbn [cwf]. split; [apply valid_shape_b_spec; exact E|reflexivity].
+  - (* matrix *)
+    cbn [v_ctor] in Hc. destruct (N.eqb_spec (r * k) 0) as [Z|Z]; [discriminate|].
+    destruct (valid_shape_b _) eqn:E; [|discriminate]. injection Hc as <-.
+    apply valid_shape_b_spec in E. destruct E as [E1 E2]. cbn [names_of lens_of map fst snd] in *.
+    cbn [cwf]. inversion E1 as [|? ? Hn _]; subst. inversion E2 as [|? ? H1 H2]; subst.
+    inversion H2; subst. split; [|split; assumption]. intros ->. apply Hn. left. reflexivity.
+  - (* range *)
+    cbn [v_ctor] in Hc. destruct (v_ctor v) as [c| |] eqn:E; cbn [obind] in Hc; try discriminate.
+    apply ranged_ctor_Ok in Hc. destruct Hc as [all [Hl Hc]].
+    apply range_clip_from_wf in Hc; [|exact Hl]. destruct Hc as [rs' [-> HF]].
+    cbn [cwf]. split; [apply IHv; reflexivity|exact HF].
+  - (* mask *)
+    cbn [v_ctor] in Hc. destruct (v_ctor v) as [c| |] eqn:E; cbn [obind] in Hc; try discriminate.
+    apply ranged_ctor_Ok in Hc. destruct Hc as [all [Hl Hc]].
+    apply mask_clip_from_wf in Hc; [|exact Hl]. destruct Hc as [ms' [-> HF]].
+    cbn [cwf]. split; [apply IHv; reflexivity|exact HF].
+  - (* index *)
+    cbn [v_ctor] in Hc. destruct (v_ctor v) as [c| |] eqn:E; cbn [obind] in Hc; try discriminate.
+    unfold index_ctor in Hc. destruct (length (c_shape c) <? length ps)%nat; [discriminate|].
+    destruct (has_duplicates _); [discriminate|].
+    destruct (place_provided _ _ _) as [pr|] eqn:Ep; [|discriminate]. injection Hc as <-.
+    cbn [cwf]. split; [apply IHv; reflexivity|].
+    eapply place_provided_ok; [exact Ep|apply Forall2_repeat_None].
+  - (* expansion *)
+    cbn [v_ctor] in Hc. destruct (v_ctor v) as [c| |] eqn:E; cbn [obind] in Hc; try discriminate.
+    unfold expand_ctor in Hc. destruct (has_duplicates (map snd es)) eqn:Ed; [discriminate|].
+    destruct (existsb _ es) eqn:Ee; [discriminate|]. injection Hc as <-.
+    apply has_duplicates_false in Ed. apply existsb_false_Forall in Ee.
+    pose proof (stable_sort_perm es) as P.
+    cbn [cwf]. split; [apply IHv; reflexivity|]. split; [|split].
+    + apply stable_sort_sorted. eapply Forall_impl; [|exact Ee]. cbn beta. intros e He.
+      apply orb_false_elim in He as [He _]. apply Nat.ltb_ge in He. exact He.
+    + eapply Permutation_NoDup; [|exact Ed]. apply Permutation_map. symmetry. exact P.
+    + eapply Permutation_Forall; [symmetry; exact P|]. eapply Forall_impl; [|exact Ee]. cbn beta.
+      intros e He. apply orb_false_elim in He as [_ He]. apply contains_false. exact He.
+  - (* rename *)
+    cbn [v_ctor] in Hc. destruct (v_ctor v) as [c| |] eqn:E; cbn [obind] in Hc; try discriminate.
+    unfold rename_ctor in Hc.
+    destruct (Nat.eqb_spec (length ns) (length (c_shape c))) as [El|El]; cbn [negb] in Hc; [|discriminate].
+    destruct (has_duplicates ns) eqn:Ed; [discriminate|]. injection Hc as <-.
+    cbn [cwf]. split; [apply IHv; reflexivity|]. split; [exact El|apply has_duplicates_false; exact Ed].
+  - (* reverse *)
+    cbn [v_ctor] in Hc. destruct (v_ctor v) as [c| |] eqn:E; cbn [obind] in Hc; try discriminate.
+    unfold reverse_ctor in Hc. destruct (has_duplicates ns); [discriminate|].
+    destruct (existsb _ ns); [discriminate|]. injection Hc as <-.
+    cbn [cwf]. split; [apply IHv; reflexivity|apply map_length].
+  - (* access *)
+    cbn [v_ctor] in Hc. destruct (v_ctor v) as [c| |] eqn:E; cbn [obind] in Hc; try discriminate.
+    unfold access_tbl in Hc.
+    destruct (Nat.eqb_spec (length ns) (length (c_shape c))) as [El|El]; cbn [negb omap] in Hc; [|discriminate].
+    destruct (dm_new _ ns) as [tbl|] eqn:En; cbn [omap] in Hc; [|discriminate]. injection Hc as <-.
+    cbn [cwf]. split; [apply IHv; reflexivity|]. exists ns. split; assumption.
+  - (* transpose *)
+    cbn [v_ctor] in Hc. destruct (v_ctor v) as [c| |] eqn:E; cbn [obind] in Hc; try discriminate.
+    unfold access_tbl in Hc.
+    destruct (Nat.eqb_spec (length ns) (length (c_shape c))) as [El|El]; cbn [negb omap] in Hc; [|discriminate].
+    destruct (dm_new _ ns) as [tbl|] eqn:En; cbn [omap] in Hc; [|discriminate]. injection Hc as <-.
+    cbn [cwf]. split; [apply IHv; reflexivity|]. exists ns. split; assumption.
+  - (* stack *)
+    rewrite v_ctor_stack in Hc. destruct (ctor_all vs) as [cs| |] eqn:E; cbn [obind] in Hc; try discriminate.
+    pose proof (ctor_all_wf vs H cs E) as Hw.
+    unfold stack_ctor in Hc. destruct cs as [|c1 r] eqn:Ecs; [discriminate|].
+    destruct (length (c_shape c1) <? pos)%nat eqn:Ep; [discriminate|].
+    destruct (contains (c_shape c1) n) eqn:Ect; [discriminate|].
+    destruct (shapes_equal _) eqn:Es; cbn [negb] in Hc; [|discriminate]. injection Hc as <-.
+    cbn [cwf]. rewrite all_Forall. unfold first_shape. cbn [map head_shape].
+    split; [discriminate|]. split; [inversion Hw; subst; split; assumption|]. split; [apply Nat.ltb_ge; exact Ep|].
+    split; [apply contains_false; exact Ect|].
+    constructor; [reflexivity|]. cbn [shapes_equal map] in Es. apply forallb_Forall' in Es.
+    rewrite Forall_map in Es. eapply Forall_impl; [|exact Es]. cbn beta. intros a Ha.
+    apply shape_eqb_eq. exact Ha.
+  - (* chain *)
+    rewrite v_ctor_chain in Hc. destruct (ctor_all vs) as [cs| |] eqn:E; cbn [obind] in Hc; try discriminate.
+    pose proof (ctor_all_wf vs H cs E) as Hw.
+    unfold chain_ctor in Hc. destruct cs as [|c1 r] eqn:Ecs; [discriminate|].
+    destruct (c_shape c1) as [|d0 sh1] eqn:Esh; [discriminate|].
+    destruct (position_of _ n) as [along|] eqn:Ep; [|discriminate].
+    destruct (shapes_similar _ along) eqn:Es; cbn [negb] in Hc; [|discriminate]. injection Hc as <-.
+    cbn [cwf]. rewrite all_Forall. unfold first_shape. cbn [map head_shape]. rewrite Esh.
+    split; [discriminate|]. split; [inversion Hw; subst; split; assumption|]. split.
+    + unfold position_of in Ep. apply index_of_Some in Ep. rewrite names_of_length in Ep. apply Ep.
+    + constructor; [rewrite Esh; apply similar_from_refl|].
+      cbn [shapes_similar map] in Es. rewrite Esh in Es. apply forallb_Forall' in Es.
+      rewrite Forall_map in Es. exact Es.
+  - (* wrap *)
+    cbn [v_ctor] in Hc. destruct (v_ctor v) as [c| |] eqn:E; cbn [omap] in Hc; try discriminate.
+    injection Hc as <-. cbn [cwf]. apply IHv. reflexivity.
 Qed.
